@@ -6,6 +6,7 @@ Require Import Coq.QArith.QArith.
 Require Import Urcu.RcuList.RcuList.
 Require Import Urcu.RcuList.RcuTravL.
 Require Import Urcu.RcuList.RcuTrav.
+Require Import Urcu.RcuList.RcuTravSim.
 Import ListNotations.
 
 (* for every updater program (add at head, add at tail, delete, replace with distinct nodes) and every choice sequence: each reader's cursor is the head or a node whose next field is initialised in memory, so a traversal only ever follows initialised pointers *)
@@ -22,6 +23,25 @@ Theorem C18_invariant_step :
     forall (s : st) (c : choice), Inv s -> Inv (exec c s).
 Proof. exact (@Urcu.RcuList.RcuList.Inv_exec). Qed.
 Print Assumptions C18_invariant_step.
+
+(* the executable TSO model RcuList.exec (the one fed with the stores and loads of rculist.h / rcuhlist.h by the refinement check): every updater program over fresh nodes, every flush delay and interleaving, every reader - its committed memory and cursor are those of a state of the traversal system reached by stores of the five shapes only; the visited nodes are in list order without repetition, were present at some moment of the traversal, exclude nodes unlinked before it began, and after the end include every node resident throughout *)
+Theorem C18_model_readers_traverse_consistently :
+    forall (td : list uop) (cs : list choice) (r : nat),
+    Forall opok td ->
+    NoDup (newn td) ->
+    let s := fold_left (fun (s : st) (c : choice) => exec c s) cs (init td) in
+    exists t : tst,
+    gm (tg t) = m s /\
+    rc (tr t) = rcur s r /\
+    treach (tinit g0) t /\
+    sorted (gkey (tg t)) (rV (tr t)) /\
+    sorted (gkey (tg t)) (gL (tg t)) /\
+    NoDup (rV (tr t)) /\
+    (forall x : N, In x (rV (tr t)) -> In x (rW (tr t))) /\
+    (forall x : N, In x (rE0 (tr t)) -> ~ In x (rL0 (tr t)) -> ~ In x (rV (tr t))) /\
+    (tfin t = true -> forall x : N, In x (rR (tr t)) -> In x (rV (tr t))).
+Proof. exact (@Urcu.RcuList.RcuTravSim.rculist_traversal). Qed.
+Print Assumptions C18_model_readers_traverse_consistently.
 
 (* memory level, every interleaving of visible updater stores (initialise a fresh node, publish at head / tail, unlink, replace) and reader steps, any number of traversals: the visited nodes are strictly increasing in the immutable key order in which the list itself is sorted at every moment - list order, each node at most once *)
 Theorem C18_traversal_in_list_order_exactly_once :
